@@ -38,6 +38,11 @@ def normalise(x, mapping):
     return x
 
 
+WD_OPTIONS = {}
+WD_NAMES = {}
+NAMED_SECOND = [None]       # (set by check_stack for the innermost wrapper_decorator_args level)
+
+
 def gen_decorator(rnd, idx, style):
     """Source of a wrapping function d<idx>(func, <own>, *args, **kwargs).
     own parameters: positional (like the repository's tests) or keyword-only."""
@@ -49,6 +54,11 @@ def gen_decorator(rnd, idx, style):
         src = ('def %s_base(func, *args, %s, **kwargs):\n    return (%r, %s, func(*args, **kwargs))\n'
                '%s = functools.partial(%s_base, %s=%d)\n') % (name, own_name, name, own_name, name, name, own_name, 70 + idx)
         return name, src, 0, [], [own_name], 'wrapper_decorator'
+    if style == 'wrapper_decorator_opts':
+        # wrapper_decorator(use_varargs=False): the wrapping function hands only **kwargs on, and says so
+        src = 'def %s(func, *args, **kwargs):\n    return (%r, len(args), func(**kwargs))\n' % (name, name)
+        WD_OPTIONS[name] = 'use_varargs=False'
+        return name, src, 0, [], [], 'wrapper_decorator_opts'
     own = []
     if rnd.random() < 0.7:
         n_own = rnd.randint(0, 2)
@@ -64,8 +74,13 @@ def gen_decorator(rnd, idx, style):
         # masks one leading positional of the wrapped function, like _deco_pos in the repository's tests
         call_args = '0, *args, **kwargs'
         n = 1
+        if NAMED_SECOND[0]:
+            # ... and passes a further parameter of the wrapped function by name
+            call_args = '0, *args, %s=0, **kwargs' % NAMED_SECOND[0]
+            names = (NAMED_SECOND[0],)
     body = 'return (%r, %s, func(%s))' % (name, ', '.join(o[0] for o in pos_own + kwo_own) or 'None', call_args)
     src = 'def %s(%s):\n    %s\n' % (name, ', '.join(params), body)
+    WD_NAMES[name] = tuple(names)
     return name, src, n, [o[0] for o in pos_own], [o[0] for o in kwo_own], style
 
 
@@ -83,6 +98,8 @@ def check_stack(ctx, case_seed):
     ctx.evaluated()
     ctx.count('C13.stacks')
     decos = []
+    pos_f = [q for q in fparams if q[1] in (PO, PK)]
+    NAMED_SECOND[0] = pos_f[1][0] if len(pos_f) >= 2 and pos_f[1][1] == PK and rnd.random() < 0.5 else None
     for i in range(depth):
         style = rnd.choice(('decorator', 'decorator', 'wrapper_decorator', 'wrapper_decorator_args', 'wrapper_decorator',
                             'decorator', 'wrapper_decorator_partial'))
@@ -124,10 +141,12 @@ def check_stack(ctx, case_seed):
             lines.append(src)
     # decorator objects
     for i, (name, src, n, po, ko, st) in enumerate(decos):
-        if st == 'decorator':
+        if st == 'wrapper_decorator_opts':
+            lines.append('D%d = wrappers.wrapper_decorator(%s)(%s)' % (i, WD_OPTIONS[name], name))
+        elif st == 'decorator':
             lines.append('D%d = wrappers.decorator(%s)' % (i, name))
         elif n:
-            lines.append('D%d = wrappers.wrapper_decorator(%d)(%s)' % (i, n, name))
+            lines.append('D%d = wrappers.wrapper_decorator(%s)(%s)' % (i, ', '.join([str(n)] + [repr(x) for x in WD_NAMES.get(name, ())]), name))
         else:
             lines.append('D%d = wrappers.wrapper_decorator(%s)' % (i, name))
     fdef = 'def %s(%s): return (%r, dict(locals()))' % (fn, sigs.render(fp), fn)
